@@ -65,6 +65,9 @@ type Interp struct {
 	baseDoms       map[*Term]ByteSet
 	memo           map[string]*memoEntry
 	deadline       time.Time
+	knowGen        uint32
+	evalGen        []uint32
+	evalVal        []int8
 }
 
 type globalUndo struct {
@@ -370,7 +373,8 @@ func (in *Interp) callMerged(fn *ssa.Function, args []Value, env []Value) Value 
 	// that the result is a function of (arguments, domains) only and can be memoised
 	savedLits, savedTrail := in.lits, in.litTrail
 	in.lits, in.litTrail = map[int32]bool{}, nil
-	restoreLits := func() { in.lits, in.litTrail = savedLits, savedTrail }
+	in.knowGen++
+	restoreLits := func() { in.lits, in.litTrail = savedLits, savedTrail; in.knowGen++ }
 	lm, dm := in.litMark(), in.domMark()
 	depth0 := in.depth
 	cs0 := len(in.callStack)
